@@ -1280,7 +1280,9 @@ func (m *MapPollard) GetHash(pos uint64) Hash {
 	m.rwLock.RLock()
 	defer m.rwLock.RUnlock()
 
-	if m.TotalRows != TreeRows(m.NumLeaves) {
+	// Only positions that exist with TreeRows(m.NumLeaves) rows can be translated. For
+	// anything bigger translatePos would give the position of some unrelated node.
+	if m.TotalRows != TreeRows(m.NumLeaves) && pos < maxPosition(TreeRows(m.NumLeaves)) {
 		pos = translatePos(pos, TreeRows(m.NumLeaves), m.TotalRows)
 	}
 	leaf, _ := m.Nodes.Get(pos)
